@@ -26,7 +26,10 @@ import (
 
 // ---------------------------------------------------------------- configurations
 
-var optNames = []string{"WithStore", "WithBeforePublish", "WithBeforePublishContext", "WithAfterPublishContext", "WithObservability", "WithSubscriptionStore", "WithPersistenceErrorHandler", "WithAfterPublish", "WithPersistenceTimeout"}
+var optNames = []string{"WithStore", "WithBeforePublish", "WithBeforePublishContext", "WithAfterPublishContext", "WithObservability", "WithSubscriptionStore", "WithPersistenceErrorHandler", "WithAfterPublish", "WithPersistenceTimeout",
+	// options given a nil value (a caller that passes an optional hook through): nothing is
+	// installed, and nothing that another option installed is taken away
+	"WithBeforePublishContext(nil)", "WithBeforePublish(nil)", "WithAfterPublishContext(nil)", "WithAfterPublish(nil)", "WithPersistenceErrorHandler(nil)", "WithSubscriptionStore(nil)"}
 
 type nopObs struct{}
 
@@ -149,6 +152,18 @@ func runCfgBody(c cfg) (out []string) {
 			opts = append(opts, eventbus.WithPersistenceErrorHandler(func(any, reflect.Type, error) { hookCalls["perr"]++ }))
 		case 7:
 			opts = append(opts, eventbus.WithAfterPublish(func(reflect.Type, any) { hookCalls["after"]++ }))
+		case 9:
+			opts = append(opts, eventbus.WithBeforePublishContext(nil))
+		case 10:
+			opts = append(opts, eventbus.WithBeforePublish(nil))
+		case 11:
+			opts = append(opts, eventbus.WithAfterPublishContext(nil))
+		case 12:
+			opts = append(opts, eventbus.WithAfterPublish(nil))
+		case 13:
+			opts = append(opts, eventbus.WithPersistenceErrorHandler(nil))
+		case 14:
+			opts = append(opts, eventbus.WithSubscriptionStore(nil))
 		case 8:
 			if c.Slow {
 				opts = append(opts, eventbus.WithPersistenceTimeout(time.Millisecond))
@@ -280,6 +295,17 @@ func configs(thorough bool) []cfg {
 		}
 	}
 	subsets(0, nil)
+	// options with a nil value, before and after WithStore, alone and next to a hook of another kind
+	for n := 9; n <= 14; n++ {
+		for _, p := range [][]int{{0, n}, {n, 0}, {0, n, 4}, {4, n, 0}} {
+			l = append(l, cfg{Perm: p})
+		}
+		other := 3 // a context hook of the other kind
+		if n == 11 {
+			other = 2
+		}
+		l = append(l, cfg{Perm: []int{0, other, n}}, cfg{Perm: []int{other, 0, n}}, cfg{Perm: []int{n, other, 0}})
+	}
 	// an append that outlives the persistence timeout but succeeds
 	for _, p := range [][]int{{0, 8}, {8, 0}, {0, 8, 6}, {2, 0, 8}} {
 		l = append(l, cfg{Perm: p, Slow: true})
